@@ -26,6 +26,8 @@
 #include <boost/gil/extension/numeric/resample.hpp>
 #include <boost/gil/extension/numeric/affine.hpp>
 #include "harness.hpp"
+#include <unistd.h>
+#include <sys/wait.h>
 namespace gil = boost::gil;
 using std::ptrdiff_t;
 
@@ -165,8 +167,39 @@ static std::string show_m(gil::matrix3x2<double> const& m) {
 #define SRCS(X) X("g8", plain<gil::gray8_image_t>) X("rgb8", plain<gil::rgb8_image_t>) X("rgb8p", plain<gil::rgb8_planar_image_t>) \
   X("g16", plain<gil::gray16_image_t>) X("g8s", plain<gil::gray8s_image_t>) X("g32f", plain<gil::gray32f_image_t>) X("sub", subs) X("trn", trns)
 
+// every op runs in a forked child: a sanitizer abort or a failed BOOST_ASSERT inside GIL becomes the observation
+// `crash:<how>` of that op and the harness carries on (mutants that read outside abort on thousands of ops)
+template <typename H> static std::string guarded(H handle, std::string const& line) {
+    int fd[2];
+    if (pipe(fd) != 0) return handle(line);
+    fflush(stdout); fflush(stderr);
+    pid_t pid = fork();
+    if (pid < 0) { close(fd[0]); close(fd[1]); return handle(line); }
+    if (pid == 0) {
+        close(fd[0]);
+        std::string out;
+        try { out = handle(line); } catch (...) { out = "err:exception"; }
+        size_t off = 0;
+        while (off < out.size()) { ssize_t k = write(fd[1], out.data() + off, out.size() - off); if (k <= 0) break; off += (size_t)k; }
+        close(fd[1]);
+        _exit(0);
+    }
+    close(fd[1]);
+    std::string out; char buf[65536]; ssize_t k;
+    while ((k = read(fd[0], buf, sizeof buf)) > 0) out.append(buf, (size_t)k);
+    close(fd[0]);
+    int st = 0; waitpid(pid, &st, 0);
+    if (WIFEXITED(st) && WEXITSTATUS(st) == 0) return out;
+    if (WIFSIGNALED(st)) return "crash:signal-" + std::to_string(WTERMSIG(st)) + (WTERMSIG(st) == SIGABRT ? "-abort(assertion)" : "");
+    return "crash:exit-" + std::to_string(WEXITSTATUS(st)) + (WEXITSTATUS(st) == 86 ? "-AddressSanitizer" : WEXITSTATUS(st) == 87 ? "-UBSan" : "");
+}
+
+static std::string handle_op(std::string const& line);
 int main() {
-    return hv::run([](std::string const& line) -> std::string {
+    return hv::run([](std::string const& line) -> std::string { return guarded(handle_op, line); });
+}
+static std::string handle_op(std::string const& line) {
+    {
         auto w = hv::words(line);
         auto I = [&](size_t i) { return (long)hv::to_ll(w[i]); };
         if (w.size() == 10 && (w[0] == "bil" || w[0] == "near")) {
@@ -243,5 +276,5 @@ int main() {
             if (w[1] == "r") return show_m(gil::matrix3x2<double>::get_rotate(d_of(w[2])));
         }
         return "bad-op";
-    });
+    }
 }
